@@ -46,6 +46,33 @@ def run_cvc5(txt, timeout_ms):
             pass
 
 
+def run_cvc5_api(txt, timeout_ms):
+    """cvc5 through its Python API (the wheel in the overlay venv), same SMT-LIB text"""
+    try:
+        import cvc5
+    except Exception:
+        return run_cvc5(txt, timeout_ms)
+    try:
+        tm = cvc5.TermManager() if hasattr(cvc5, "TermManager") else None
+        slv = cvc5.Solver(tm) if tm is not None else cvc5.Solver()
+        slv.setOption("strings-exp", "true")
+        slv.setOption("tlimit-per", str(int(timeout_ms)))
+        p = cvc5.InputParser(slv)
+        p.setStringInput(cvc5.InputLanguage.SMT_LIB_2_6, txt, "vc")
+        sm = p.getSymbolManager()
+        res = "unknown"
+        while True:
+            cmd = p.nextCommand()
+            if cmd.isNull():
+                break
+            out = cmd.invoke(slv, sm).strip()
+            if out in ("sat", "unsat", "unknown"):
+                res = out
+        return res
+    except Exception:
+        return "unknown"
+
+
 def run_z3_ematch(facts, goal, timeout_ms):
     s = z3.Solver()
     s.set("timeout", timeout_ms)
@@ -61,23 +88,22 @@ def run_z3_ematch(facts, goal, timeout_ms):
 
 
 def second_opinion(facts, goal, timeout_ms):
+    """cvc5 on the same assertions (it is markedly stronger than z3 on sequence equalities), then z3 with
+    E-matching only.  Only `unsat` is taken from here: a cvc5 `sat` has no model we could validate or replay."""
     t0 = time.time()
     if os.environ.get("PYVC_NO_SECOND"):
         return "unknown", "", 0.0
-    r = run_z3_ematch(facts, goal, min(timeout_ms, 10000))
-    if r == "unsat":
-        return "proved", "z3-ematch", time.time() - t0
     try:
         txt = to_smt2(facts, goal)
+        r = run_cvc5_api(txt, timeout_ms)
     except Exception:
-        return "unknown", "", time.time() - t0
-    r = run_cvc5(txt, timeout_ms)
-    dt = time.time() - t0
+        r = "unknown"
     if r == "unsat":
-        return "proved", "cvc5", dt
-    if r == "sat":
-        return "refuted", "cvc5", dt
-    return "unknown", "", dt
+        return "proved", "cvc5", time.time() - t0
+    r = run_z3_ematch(facts, goal, min(timeout_ms, 5000))
+    if r == "unsat":
+        return "proved", "z3-ematch", time.time() - t0
+    return "unknown", "", time.time() - t0
 
 
 # ---------------------------------------------------------------------------------------------------
